@@ -3,10 +3,12 @@
 # confirms: demo fails with change, passes without; suite baseline unchanged; then stores under /verif/seeded/
 wt=$1; id=$2; slug=$3; caught=$4
 cd "$wt" || exit 2
-/venv/bin/python _seed/demo.py >/tmp/demo_with.txt 2>&1; with=$?
-git stash -q
-/venv/bin/python _seed/demo.py >/tmp/demo_without.txt 2>&1; without=$?
-git stash pop -q
+PYTHONPATH="$wt" /venv/bin/python _seed/demo.py >/tmp/demo_with.txt 2>&1; with=$?
+# (not git stash: the stash is shared between worktrees)
+git diff > /tmp/confirm_seed.$$.diff
+git apply -R /tmp/confirm_seed.$$.diff
+PYTHONPATH="$wt" /venv/bin/python _seed/demo.py >/tmp/demo_without.txt 2>&1; without=$?
+git apply /tmp/confirm_seed.$$.diff; rm -f /tmp/confirm_seed.$$.diff
 echo "demo with change: exit $with; without: exit $without"
 summary=$(/venv/bin/python -m pytest -q -p no:cacheprovider --timeout=900 2>&1 | tail -1)
 echo "suite with change: $summary"
@@ -25,7 +27,7 @@ except Exception:
 meta['property'] = pid
 meta['confirmed'] = {'demo_exit_with_change': 'non-zero', 'demo_exit_without_change': 0,
                      'suite_with_change': summary,
-                     'ran': 'tools/confirm_seed.sh: demo.py with/without the change (git stash), full pytest suite with the change'}
+                     'ran': 'tools/confirm_seed.sh: demo.py with/without the change (git apply -R), full pytest suite with the change'}
 meta['caught_by'] = caught
 json.dump(meta, open(d + '/meta.json', 'w'), indent=1)
 PY
